@@ -52,7 +52,9 @@ type TResult struct {
 	Runs     int        `json:"runs"`
 }
 
-func tsText(i int64) string { return teBase.Add(time.Duration(i) * time.Second).Format("2006-01-02T15:04:05") }
+func tsText(i int64) string {
+	return teBase.Add(time.Duration(i) * time.Second).Format("2006-01-02T15:04:05")
+}
 
 func boundText(i int64) string {
 	if i == tNEG || i == tPOS {
